@@ -5,7 +5,7 @@ use crate::deltas::{crc32, delta_id, gen_delta_auto, hex, show_delta};
 use crate::rng::Rng;
 use crate::Found;
 use redis_sim::replication::state::ReplicationDelta;
-use redis_sim::streaming::wal_store::{InMemoryWalStore, WalError, WalFileReader, WalStore};
+use redis_sim::streaming::wal_store::{InMemoryWalStore, LocalWalStore, WalError, WalFileReader, WalStore};
 use redis_sim::streaming::{WalEntry, WalReader, WalRotator};
 use std::panic::{catch_unwind, AssertUnwindSafe};
 
@@ -291,6 +291,383 @@ fn check_rotator(rng: &mut Rng, iters: u64) -> Option<Found> {
     None
 }
 
+// ======================= C10 under damage of ANY byte of ANY file, the ACTIVE file and its 16-byte header included =======================
+// Several rotated files + the active one, non-monotone stamps; every single-bit flip of the active file's header, header flips of the
+// other files, random flips / overwrites / cuts / zero-fills anywhere (also combined with a header flip of the active file); then
+// truncate_before(T) on the LIVE rotator for thresholds around the stamps.  Required (independent oracle from the file format):
+//  * recovery before the truncation = every entry of every file up to that file's first damaged entry (a damaged file hides nothing else;
+//    nothing is recovered that was never appended);
+//  * the active file (wal-<current_sequence>.wal, the one the writer appends to) still exists afterwards, byte for byte;
+//  * what is recovered afterwards is a subsequence of what was recoverable before and contains every entry stamped > T;
+//  * appends after the truncation succeed and are recovered after a restart (new rotator over the same store).
+
+trait Lab {
+    type S: WalStore + Clone;
+    fn fresh(&mut self) -> Result<Self::S, String>;
+    fn get(&self, s: &Self::S, name: &str) -> Option<Vec<u8>>;
+    fn put(&self, s: &Self::S, name: &str, data: &[u8]);
+    fn done(&mut self);
+    fn what(&self) -> &'static str;
+}
+
+struct MemLab;
+impl Lab for MemLab {
+    type S = InMemoryWalStore;
+    fn fresh(&mut self) -> Result<InMemoryWalStore, String> { Ok(InMemoryWalStore::new()) }
+    fn get(&self, s: &InMemoryWalStore, name: &str) -> Option<Vec<u8>> { s.get_file_data(name) }
+    fn put(&self, s: &InMemoryWalStore, name: &str, data: &[u8]) { s.set_file_data(name, data.to_vec()) }
+    fn done(&mut self) {}
+    fn what(&self) -> &'static str { "InMemoryWalStore" }
+}
+
+/// LocalWalStore in a scratch directory under /var/tmp (removed after every case and on drop)
+struct DirLab { base: std::path::PathBuf, n: usize, cur: Option<std::path::PathBuf> }
+impl Lab for DirLab {
+    type S = LocalWalStore;
+    fn fresh(&mut self) -> Result<LocalWalStore, String> {
+        self.done();
+        self.n += 1;
+        let d = self.base.join(format!("case-{}", self.n));
+        let s = LocalWalStore::new(d.clone()).map_err(|e| e.to_string())?;
+        self.cur = Some(d);
+        Ok(s)
+    }
+    fn get(&self, _s: &LocalWalStore, name: &str) -> Option<Vec<u8>> { std::fs::read(self.cur.as_ref()?.join(name)).ok() }
+    /// in place (same inode: the live writer keeps its descriptor), same length
+    fn put(&self, _s: &LocalWalStore, name: &str, data: &[u8]) {
+        use std::io::Write;
+        if let Some(d) = &self.cur {
+            if let Ok(mut f) = std::fs::OpenOptions::new().write(true).open(d.join(name)) { let _ = f.write_all(data); let _ = f.set_len(data.len() as u64); let _ = f.sync_all(); }
+        }
+    }
+    fn done(&mut self) { if let Some(d) = self.cur.take() { let _ = std::fs::remove_dir_all(d); } }
+    fn what(&self) -> &'static str { "LocalWalStore (directory under /var/tmp)" }
+}
+impl Drop for DirLab { fn drop(&mut self) { self.done(); let _ = std::fs::remove_dir_all(&self.base); } }
+
+struct Layout { max: usize, ents: Vec<WalEntry>, file_of: Vec<u64> }
+impl Layout {
+    fn files(&self) -> Vec<u64> { let mut f = self.file_of.clone(); f.dedup(); f }
+    fn active(&self) -> u64 { *self.file_of.last().unwrap_or(&0) }
+    fn in_file(&self, seq: u64) -> Vec<&WalEntry> { (0..self.ents.len()).filter(|&i| self.file_of[i] == seq).map(|i| &self.ents[i]).collect() }
+    fn file_len(&self, seq: u64) -> usize { 16 + self.in_file(seq).iter().map(|e| e.disk_size()).sum::<usize>() }
+    /// offset of entry #j of file `seq`
+    fn entry_off(&self, seq: u64, j: usize) -> usize { 16 + self.in_file(seq).iter().take(j).map(|e| e.disk_size()).sum::<usize>() }
+    fn text(&self) -> String { format!("max_file_size={}, {} entries with stamps (append order) {:?} in files {:?}, active file wal-{:08x}.wal", self.max, self.ents.len(), self.ents.iter().map(|e| e.timestamp).collect::<Vec<_>>(), self.file_of, self.active()) }
+}
+
+#[derive(Clone)]
+enum DmgKind { Flip(usize), Over(usize, Vec<u8>), Cut(usize) }
+#[derive(Clone)]
+struct Dmg { seq: u64, kind: DmgKind, what: String }
+
+fn apply_dmg(img: &mut Vec<u8>, d: &DmgKind) {
+    match d {
+        DmgKind::Flip(bit) => if bit / 8 < img.len() { img[bit / 8] ^= 1 << (bit % 8); },
+        DmgKind::Over(at, bytes) => for (j, b) in bytes.iter().enumerate() { if at + j < img.len() { img[at + j] = *b; } },
+        DmgKind::Cut(len) => img.truncate(*len),
+    }
+}
+
+fn wname(seq: u64) -> String { format!("wal-{:08x}.wal", seq) }
+type Eid = (u64, u64);
+fn eids(es: &[WalEntry]) -> Vec<Eid> { es.iter().map(|e| (e.timestamp, crate::deltas::fnv(&e.data))).collect() }
+fn stamps_of(e: &[Eid]) -> Vec<u64> { e.iter().map(|x| x.0).collect() }
+fn is_subseq(small: &[Eid], big: &[Eid]) -> bool { let mut i = 0; for b in big { if i < small.len() && small[i] == *b { i += 1; } } i == small.len() }
+fn count(v: &[Eid], x: &Eid) -> usize { v.iter().filter(|y| *y == x).count() }
+
+/// what the file format says a (damaged) image still holds: nothing if the magic/version bytes or the header are gone, else the
+/// entries up to the first one whose length, checksum or payload bytes changed or are cut off (the stamp field is outside the
+/// checksum - known finding - so a damaged stamp field keeps the entry, with the stamp the bytes now spell).  bool = read to the end
+fn expect_file(orig: &[u8], img: &[u8], ents: &[&WalEntry]) -> (Vec<Eid>, bool) {
+    if img.len() < 16 || img[0..5] != orig[0..5] { return (Vec::new(), false); }
+    let mut off = 16; let mut out = Vec::new();
+    for e in ents {
+        let sz = e.disk_size();
+        if img.len() < off + sz { return (out, false); }
+        if img[off..off + 4] != orig[off..off + 4] || img[off + 12..off + sz] != orig[off + 12..off + sz] { return (out, false); }
+        let mut s = [0u8; 8]; s.copy_from_slice(&img[off + 4..off + 12]);
+        out.push((u64::from_le_bytes(s), crate::deltas::fnv(&e.data)));
+        off += sz;
+    }
+    (out, true)
+}
+
+fn post_entries(rng: &mut Rng) -> Vec<WalEntry> {
+    let mut out = Vec::new();
+    let mut i = 0u64;
+    while out.len() < 4 {
+        let mut d = gen_delta_auto(rng, 10 + i); i += 1;
+        d.key = format!("appended-after-truncation:{}:{}", out.len(), rng.below(1 << 30));
+        let stamp = match rng.below(5) { 0 => 0, 1 => u64::MAX, _ => 1 + rng.below(80) };
+        if let Ok(e) = WalEntry::from_delta(&d, stamp) { if e.data.len() <= 400 { out.push(e); } }
+    }
+    out
+}
+
+/// 16 zero bytes where the reader expects an entry header (length 0, stamp 0, checksum 0 = crc32 of nothing)
+fn zero_header_at_boundary(img: &[u8], ents: &[&WalEntry]) -> bool {
+    let mut off = 16;
+    let mut offs = vec![off];
+    for e in ents { off += e.disk_size(); offs.push(off); }
+    offs.iter().any(|&o| img.len() >= o + 16 && img[o..o + 16].iter().all(|b| *b == 0))
+}
+
+fn zero_headers_allowed() -> bool { std::env::var("VERIF_WAL_ZERO_HEADER").is_ok() }
+
+fn run_damage_case<L: Lab>(lab: &mut L, lay: &Layout, dmg: &[Dmg], t: u64, post: &[WalEntry]) -> Option<Found> { run_damage_case_z(lab, lay, dmg, t, post, zero_headers_allowed()) }
+
+fn run_damage_case_z<L: Lab>(lab: &mut L, lay: &Layout, dmg: &[Dmg], t: u64, post: &[WalEntry], allow_zero: bool) -> Option<Found> {
+    let store = match lab.fresh() { Ok(s) => s, Err(_) => return None };
+    let mut rot = WalRotator::new(store.clone(), lay.max).ok()?;
+    for (i, e) in lay.ents.iter().enumerate() { match rot.append(e) { Ok(s) if s == lay.file_of[i] => {} _ => return None } }
+    if rot.sync().is_err() { return None; }
+    let active = rot.current_sequence();
+    if active != lay.active() { return None; }
+    let active_name = wname(active);
+    let ctx = format!("{}: {}; damage: {}; truncate_before({})", lab.what(), lay.text(), if dmg.is_empty() { "none".to_string() } else { dmg.iter().map(|d| d.what.clone()).collect::<Vec<_>>().join(" + ") }, t);
+    // damage + what each file still holds according to the format
+    let mut expected: Vec<Eid> = Vec::new();
+    let mut active_complete = true;
+    let mut active_img: Vec<u8> = Vec::new();
+    for seq in lay.files() {
+        let name = wname(seq);
+        let orig = match lab.get(&store, &name) { Some(d) => d, None => return None };
+        let mut img = orig.clone();
+        for d in dmg.iter().filter(|d| d.seq == seq) { apply_dmg(&mut img, &d.kind); }
+        // open finding (reported; own trigger `zero_header`): a zero-filled entry header decodes as an entry
+        if !allow_zero && zero_header_at_boundary(&img, &lay.in_file(seq)) { return None; }
+        if img != orig { lab.put(&store, &name, &img); }
+        let (mut ex, complete) = expect_file(&orig, &img, &lay.in_file(seq));
+        expected.append(&mut ex);
+        if seq == active { active_complete = complete; active_img = img; }
+    }
+    let recover = |s: &L::S| -> Result<Vec<Eid>, String> {
+        match catch_unwind(AssertUnwindSafe(|| WalRotator::new(s.clone(), lay.max).and_then(|r| r.recover_all_entries()))) { Ok(Ok(e)) => Ok(eids(&e)), Ok(Err(e)) => Err(format!("Err({})", e)), Err(_) => Err("panic".into()) }
+    };
+    let before = match recover(&store) {
+        Ok(b) => b,
+        Err(e) => return Some(Found { input: format!("{} [recovery before the truncation]", ctx), observed: e, required: "the intact entries".into() }),
+    };
+    if before != expected {
+        return Some(Found { input: format!("{} [recover_all_entries on a new rotator, before the truncation]", ctx), observed: format!("{} entries, stamps {:?}", before.len(), stamps_of(&before)), required: format!("exactly the entries of every file up to that file's first damaged entry, in order ({} entries, stamps {:?}): a damaged file hides nothing of other files and nothing is recovered that was never appended", expected.len(), stamps_of(&expected)) });
+    }
+    // the update-level recovery (what a restart uses) sees them all: one damaged file never makes recovery of the others fail
+    match catch_unwind(AssertUnwindSafe(|| WalRotator::new(store.clone(), lay.max).and_then(|r| r.recover_entries_after(0)))) {
+        Ok(Ok(ds)) if ds.len() == expected.len() => {}
+        other => return Some(Found { input: format!("{} [recover_entries_after(0) on a new rotator, before the truncation]", ctx), observed: match other { Ok(Ok(ds)) => format!("{} updates", ds.len()), Ok(Err(e)) => format!("Err({}): nothing is recovered", e), Err(_) => "panic".into() }, required: format!("the {} updates of the intact entries of all files", expected.len()) }),
+    }
+    // the truncation, on the live rotator
+    match catch_unwind(AssertUnwindSafe(|| rot.truncate_before(t))) {
+        Ok(Ok(_)) => {}
+        Ok(Err(e)) => return Some(Found { input: ctx, observed: format!("Err({})", e), required: "Ok".into() }),
+        Err(_) => return Some(Found { input: ctx, observed: "panic".into(), required: "Ok".into() }),
+    }
+    if store.exists(&active_name).ok() != Some(true) {
+        return Some(Found { input: ctx, observed: format!("the active file {} (current_sequence() = {}) is gone; files left: {:?}", active_name, active, store.list().unwrap_or_default()), required: "truncation never removes the active file".into() });
+    }
+    if lab.get(&store, &active_name).as_deref() != Some(&active_img[..]) {
+        return Some(Found { input: ctx, observed: format!("the bytes of the active file {} changed", active_name), required: "truncation never touches the active file".into() });
+    }
+    let after = match recover(&store) { Ok(a) => a, Err(e) => return Some(Found { input: format!("{} [recovery after the truncation]", ctx), observed: e, required: "the surviving entries".into() }) };
+    if !is_subseq(&after, &before) {
+        return Some(Found { input: ctx.clone(), observed: format!("recovered afterwards: stamps {:?}", stamps_of(&after)), required: format!("a subsequence of what was recoverable before (stamps {:?})", stamps_of(&before)) });
+    }
+    for e in before.iter().filter(|e| e.0 > t) {
+        if count(&after, e) < count(&before, e) {
+            return Some(Found { input: ctx, observed: format!("the entry stamped {} (recoverable before the truncation) is gone; stamps left: {:?}", e.0, stamps_of(&after)), required: format!("truncation up to {} never removes an entry stamped later", t) });
+        }
+    }
+    // appends after the truncation: through the live writer, then after a restart; everything is there after one more restart
+    // (a file that got SHORTER under a live writer is not a crash model: the tail is torn when the writer is gone; then only the restart path)
+    let active_cut = dmg.iter().any(|d| d.seq == active && matches!(d.kind, DmgKind::Cut(_)));
+    let mut first_seq = Vec::new();
+    for e in post[..2].iter().filter(|_| !active_cut) {
+        match catch_unwind(AssertUnwindSafe(|| rot.append(e))) {
+            Ok(Ok(s)) => first_seq.push(s),
+            Ok(Err(x)) => return Some(Found { input: format!("{}; then append of an entry stamped {}", ctx, e.timestamp), observed: format!("Err({})", x), required: "Ok: the writer keeps working after a truncation".into() }),
+            Err(_) => return Some(Found { input: format!("{}; then append of an entry stamped {}", ctx, e.timestamp), observed: "panic (the file the writer appends to is gone)".into(), required: "Ok: the writer keeps working after a truncation".into() }),
+        }
+    }
+    if let Err(x) = rot.sync() { return Some(Found { input: format!("{}; then 2 appends and sync()", ctx), observed: format!("Err({})", x), required: "Ok".into() }); }
+    drop(rot);
+    match catch_unwind(AssertUnwindSafe(|| -> Result<(), String> {
+        let mut r2 = WalRotator::new(store.clone(), lay.max).map_err(|e| e.to_string())?;
+        for e in &post[2..4] { r2.append(e).map_err(|e| e.to_string())?; }
+        r2.sync().map_err(|e| e.to_string())
+    })) {
+        Ok(Ok(())) => {}
+        Ok(Err(x)) => return Some(Found { input: format!("{}; then a restart (new rotator on the same store) and 2 appends", ctx), observed: format!("Err({})", x), required: "Ok".into() }),
+        Err(_) => return Some(Found { input: format!("{}; then a restart and 2 appends", ctx), observed: "panic".into(), required: "Ok".into() }),
+    }
+    let fin = match recover(&store) { Ok(a) => a, Err(e) => return Some(Found { input: format!("{}; then 2 appends, a restart, 2 appends, a restart [recovery]", ctx), observed: e, required: "all surviving entries".into() }) };
+    let post_ids = eids(post);
+    for (i, id) in post_ids.iter().enumerate() {
+        // an entry appended behind damage of the active file itself is hidden by that damage (recovery of the file ends there): not required
+        if i < 2 && active_cut { continue; }
+        let must = i >= 2 || active_complete || first_seq[i] != active;
+        if must && count(&fin, id) != 1 {
+            return Some(Found { input: format!("{}; then 2 appends through the live writer (files {:?}), a restart, 2 more appends, a restart; recover_all_entries", ctx, first_seq), observed: format!("appended entry #{} (stamp {}) is recovered {} times; stamps recovered: {:?}", i, id.0, count(&fin, id), stamps_of(&fin)), required: "every entry appended after the truncation is recovered exactly once".into() });
+        }
+    }
+    let post_ids: Vec<Eid> = if active_cut { post_ids[2..].to_vec() } else { post_ids };
+    let rest: Vec<Eid> = fin.iter().filter(|e| !post_ids.contains(e)).cloned().collect();
+    if rest != after {
+        return Some(Found { input: format!("{}; then 4 appends and two restarts", ctx), observed: format!("older entries recovered now: stamps {:?}", stamps_of(&rest)), required: format!("the same older entries as right after the truncation: stamps {:?}", stamps_of(&after)) });
+    }
+    None
+}
+
+fn make_layout(rng: &mut Rng, it: u64) -> Option<Layout> {
+    let max = [64usize, 120, 200, 500][rng.below(4) as usize];
+    let n = 3 + rng.below(9);
+    let mut ents: Vec<WalEntry> = make_entries(rng, n, true).into_iter().map(|(_, e)| e).collect();
+    // random, non-monotone stamps with duplicates; sometimes the extremes
+    for e in ents.iter_mut() { e.timestamp = match rng.below(12) { 0 => 0, 1 if it % 3 == 0 => u64::MAX, _ => 1 + rng.below(60) }; }
+    // distinct payloads (identity of an entry = stamp + payload)
+    let mut seen = std::collections::HashSet::new();
+    ents.retain(|e| seen.insert(crate::deltas::fnv(&e.data)));
+    if ents.len() < 2 { return None; }
+    let store = InMemoryWalStore::new();
+    let mut rot = WalRotator::new(store, max).ok()?;
+    let mut file_of = Vec::new();
+    for e in &ents { file_of.push(rot.append(e).ok()?); }
+    Some(Layout { max, ents, file_of })
+}
+
+fn random_damage(rng: &mut Rng, lay: &Layout, same_length: bool) -> Dmg {
+    let files = lay.files();
+    let seq = if rng.chance(1, 2) { lay.active() } else { *rng.pick(&files) };
+    let len = lay.file_len(seq);
+    let n_in = lay.in_file(seq).len();
+    let role = if seq == lay.active() { "ACTIVE file" } else { "file" };
+    match rng.below(if same_length { 5 } else { 7 }) {
+        0 => { let bit = rng.below(len as u64 * 8) as usize; Dmg { seq, kind: DmgKind::Flip(bit), what: format!("bit {} (byte {}) of {} {} flipped", bit, bit / 8, role, wname(seq)) } }
+        1 | 2 => { let l = 1 + rng.below(8) as usize; let at = rng.below(len as u64) as usize; let b: Vec<u8> = (0..l).map(|_| (rng.next() & 0xff) as u8).collect(); Dmg { seq, kind: DmgKind::Over(at, b.clone()), what: format!("bytes {}.. of {} {} overwritten with {}", at, role, wname(seq), hex(&b)) } }
+        3 => { let at = rng.below(len as u64) as usize; let l = 1 + rng.below(40) as usize; Dmg { seq, kind: DmgKind::Over(at, vec![0u8; l]), what: format!("bytes {}..{} of {} {} zero-filled", at, (at + l).min(len), role, wname(seq)) } }
+        4 => {
+            // payload of entry #j damaged (recovery of the file ends exactly there)
+            let j = rng.below(n_in as u64) as usize; let e = lay.in_file(seq)[j];
+            let at = lay.entry_off(seq, j) + 16 + rng.below(e.data.len() as u64) as usize; let bit = rng.below(8) as usize;
+            Dmg { seq, kind: DmgKind::Flip(at * 8 + bit), what: format!("payload byte {} of entry #{} of {} {} damaged", at, j, role, wname(seq)) }
+        }
+        5 => { let c = rng.below(len as u64) as usize; Dmg { seq, kind: DmgKind::Cut(c), what: format!("{} {} torn: cut to {} of {} bytes", role, wname(seq), c, len) } }
+        _ => { let j = rng.below(n_in as u64) as usize; let c = lay.entry_off(seq, j) + rng.below(lay.in_file(seq)[j].disk_size() as u64) as usize; Dmg { seq, kind: DmgKind::Cut(c), what: format!("{} {} torn inside its entry #{} (cut to {} bytes)", role, wname(seq), j, c) } }
+    }
+}
+
+fn thresholds(rng: &mut Rng, lay: &Layout, k: usize) -> Vec<u64> {
+    let mut cands: Vec<u64> = vec![0, u64::MAX];
+    for e in &lay.ents { cands.push(e.timestamp); cands.push(e.timestamp.saturating_sub(1)); cands.push(e.timestamp.saturating_add(1)); }
+    (0..k).map(|_| *rng.pick(&cands)).collect()
+}
+
+fn check_truncate_damaged(rng: &mut Rng, layouts: u64, seed: u64) -> Option<Found> {
+    let mut mem = MemLab;
+    for it in 0..layouts {
+        let lay = match make_layout(rng, it) { Some(l) => l, None => continue };
+        let post = post_entries(rng);
+        let active = lay.active();
+        let active_max = lay.in_file(active).iter().map(|e| e.timestamp).max().unwrap_or(0);
+        // control: no damage
+        for t in thresholds(rng, &lay, 3) { if let Some(f) = run_damage_case(&mut mem, &lay, &[], t, &post) { return Some(f); } }
+        // every single-bit flip of the 16 header bytes of the ACTIVE file
+        for bit in 0..128usize {
+            let field = match bit / 8 { 0..=3 => "magic", 4 => "version", 5 => "flags", 6 | 7 => "reserved", _ => "sequence" };
+            let d = Dmg { seq: active, kind: DmgKind::Flip(bit), what: format!("bit {} of the 16-byte header of the ACTIVE file {} flipped (byte {}, {} field)", bit, wname(active), bit / 8, field) };
+            let mut ts = vec![active_max, u64::MAX]; ts.extend(thresholds(rng, &lay, 1));
+            for t in ts { if let Some(f) = run_damage_case(&mut mem, &lay, std::slice::from_ref(&d), t, &post) { return Some(f); } }
+        }
+        // header flips of the other files
+        for seq in lay.files() {
+            if seq == active { continue; }
+            for _ in 0..12 {
+                let bit = rng.below(128) as usize;
+                let d = Dmg { seq, kind: DmgKind::Flip(bit), what: format!("bit {} of the header of file {} flipped", bit, wname(seq)) };
+                for t in thresholds(rng, &lay, 1) { if let Some(f) = run_damage_case(&mut mem, &lay, std::slice::from_ref(&d), t, &post) { return Some(f); } }
+            }
+        }
+        // the active file holds no readable entry AND its header is damaged (any threshold)
+        for _ in 0..6 {
+            let e0 = lay.in_file(active)[0];
+            let at = 16 + 16 + rng.below(e0.data.len() as u64) as usize;
+            let hb = 64 + rng.below(64) as usize;
+            let ds = vec![
+                Dmg { seq: active, kind: DmgKind::Flip(at * 8 + rng.below(8) as usize), what: format!("payload byte {} of the FIRST entry of the ACTIVE file {} damaged", at, wname(active)) },
+                Dmg { seq: active, kind: DmgKind::Flip(hb), what: format!("bit {} of its header (sequence field) flipped", hb) },
+            ];
+            for t in [0u64, active_max, u64::MAX] { if let Some(f) = run_damage_case(&mut mem, &lay, &ds, t, &post) { return Some(f); } }
+        }
+        // random damage anywhere, alone or together with a header flip of the active file
+        for _ in 0..40 {
+            let mut ds = vec![random_damage(rng, &lay, false)];
+            if rng.chance(1, 4) { ds.push(random_damage(rng, &lay, false)); }
+            if rng.chance(1, 3) { let hb = 40 + rng.below(88) as usize; ds.push(Dmg { seq: active, kind: DmgKind::Flip(hb), what: format!("bit {} of the header of the ACTIVE file {} flipped", hb, wname(active)) }); }
+            // cuts last (a cut after an overwrite of the same file keeps offsets meaningful)
+            ds.sort_by_key(|d| matches!(d.kind, DmgKind::Cut(_)) as u8);
+            let mut ts = thresholds(rng, &lay, 2); if rng.chance(1, 2) { ts.push(active_max); }
+            for t in ts { if let Some(f) = run_damage_case(&mut mem, &lay, &ds, t, &post) { return Some(f); } }
+        }
+    }
+    // the production store on a real directory: a sample of the same cases (same-length damage only: the live writer keeps its descriptor)
+    let base = std::path::PathBuf::from(format!("/var/tmp/verif-replay-wal-{}-{}", std::process::id(), seed));
+    if std::fs::create_dir_all(&base).is_ok() {
+        let mut dir = DirLab { base, n: 0, cur: None };
+        for it in 0..2u64 {
+            let lay = match make_layout(rng, it) { Some(l) => l, None => continue };
+            let post = post_entries(rng);
+            let active = lay.active();
+            let active_max = lay.in_file(active).iter().map(|e| e.timestamp).max().unwrap_or(0);
+            if let Some(f) = run_damage_case(&mut dir, &lay, &[], active_max, &post) { return Some(f); }
+            let mut bits: Vec<usize> = (0..8).map(|_| 64 + rng.below(64) as usize).collect(); bits.extend((0..3).map(|_| rng.below(64) as usize));
+            for bit in bits {
+                let d = Dmg { seq: active, kind: DmgKind::Flip(bit), what: format!("bit {} of the 16-byte header of the ACTIVE file {} flipped", bit, wname(active)) };
+                let t = if rng.chance(1, 2) { active_max } else { u64::MAX };
+                if let Some(f) = run_damage_case(&mut dir, &lay, std::slice::from_ref(&d), t, &post) { return Some(f); }
+            }
+            for _ in 0..5 {
+                let ds = vec![random_damage(rng, &lay, true)];
+                for t in thresholds(rng, &lay, 1) { if let Some(f) = run_damage_case(&mut dir, &lay, &ds, t, &post) { return Some(f); } }
+            }
+        }
+    }
+    None
+}
+
+/// reported finding (C10): a zero-filled region where an entry header is expected (a file tail zero-extended by a crash) decodes as an
+/// entry that was never appended (length 0, stamp 0, checksum 0 == crc32 of the empty payload); recover_entries_after then fails as a whole
+fn check_zero_header(rng: &mut Rng) -> Option<Found> {
+    for it in 0..20u64 {
+        let lay = match make_layout(rng, it) { Some(l) => l, None => continue };
+        let files = lay.files();
+        let seq = *rng.pick(&files);
+        let n_in = lay.in_file(seq).len();
+        if n_in < 2 { continue; }
+        let j = 1 + rng.below(n_in as u64 - 1) as usize; // the first j entries stay intact
+        let at = lay.entry_off(seq, j);
+        let store = InMemoryWalStore::new();
+        let mut rot = WalRotator::new(store.clone(), lay.max).ok()?;
+        for e in &lay.ents { rot.append(e).ok()?; }
+        let _ = rot.sync();
+        let mut img = store.get_file_data(&wname(seq))?;
+        for b in img[at..].iter_mut() { *b = 0; }
+        let len = img.len();
+        store.set_file_data(&wname(seq), img);
+        let intact: Vec<Eid> = (0..lay.ents.len()).filter(|&i| lay.file_of[i] != seq || lay.in_file(seq).iter().take(j).any(|e| std::ptr::eq(*e, &lay.ents[i]))).map(|i| (lay.ents[i].timestamp, crate::deltas::fnv(&lay.ents[i].data))).collect();
+        let fresh = WalRotator::new(store.clone(), lay.max).ok()?;
+        let got = fresh.recover_all_entries().map(|e| eids(&e)).unwrap_or_default();
+        let upd = fresh.recover_entries_after(0);
+        if got != intact || !matches!(&upd, Ok(d) if d.len() == intact.len()) {
+            return Some(Found {
+                input: format!("{}; then bytes {}..{} of file {} (from the start of its entry #{} to the end of the file) are zero-filled, as a crash leaves a zero-extended tail; recovery on a new rotator", lay.text(), at, len, wname(seq), j),
+                observed: format!("recover_all_entries: {} entries, stamps {:?} ({} entries that were never appended: length 0, stamp 0, checksum 0); recover_entries_after(0): {}", got.len(), stamps_of(&got), got.len().saturating_sub(intact.len()), match &upd { Ok(d) => format!("{} updates", d.len()), Err(e) => format!("Err({}) - no update of ANY file is recovered", e) }),
+                required: format!("the {} intact entries (stamps {:?}): recovery of the damaged file ends at its last intact entry, and it hides nothing of the other files", intact.len(), stamps_of(&intact)),
+            });
+        }
+    }
+    None
+}
+
 /// open finding C10/C14 (lemma_stamp_is_checksummed): the stamp bytes [4,12) of an entry are outside the CRC
 fn check_stamp_covered(rng: &mut Rng) -> Option<Found> {
     for (_, e) in make_entries(rng, 8, true) {
@@ -314,11 +691,16 @@ pub fn search(_pid: &str, oid: &str, seed: u64) -> Option<Found> {
     let mut rng = Rng::new(seed + 10);
     let f = oid.split('/').nth(1).unwrap_or("");
     if oid.contains("stamp_is_checksummed") { return check_stamp_covered(&mut rng); }
-    if f.starts_with("WalRotator") || oid.starts_with("wal_files/") { if let Some(x) = check_rotator(&mut rng, 300) { return Some(x); } }
+    if oid.contains("zero_header") { return check_zero_header(&mut rng); }
+    if f.starts_with("WalRotator") || oid.starts_with("wal_files/") {
+        if let Some(x) = check_rotator(&mut rng, 300) { return Some(x); }
+        if let Some(x) = check_truncate_damaged(&mut Rng::new(seed + 7010), 6, seed) { return Some(x); }
+    }
     if f.starts_with("WalReader") { if let Some(x) = check_reader(&mut rng, 600) { return Some(x); } }
     if let Some(x) = check_roundtrip(&mut rng, 400) { return Some(x); }
     if let Some(x) = check_damage(&mut rng, 40) { return Some(x); }
     if let Some(x) = check_reader(&mut rng, 1500) { return Some(x); }
     if let Some(x) = check_rotator(&mut rng, 600) { return Some(x); }
+    if !(f.starts_with("WalRotator") || oid.starts_with("wal_files/")) { if let Some(x) = check_truncate_damaged(&mut Rng::new(seed + 7010), 6, seed) { return Some(x); } }
     None
 }
